@@ -40,6 +40,8 @@ def sort_of(k):
     if k == 'real': return R
     if k == 'tok': return Tok
     if k == 'optint': return Opt
+    if k == 'py': return Py
+    if k == 'crit': return Crit
     if isinstance(k, tuple) and k[0] == 'list': return list_sort(k[1])
     raise ValueError('unknown kind %r' % (k,))
 
@@ -170,6 +172,7 @@ def fresh_of_kind(name, k):
     if k == 'ref': return VRef(fresh(name, I))
     if k == 'tok': return VTok(fresh(name, Tok))
     if k == 'optint': return VOpt(fresh(name, Opt))
+    if k == 'py': return VPy(fresh(name, Py))
     if isinstance(k, tuple) and k[0] == 'list':
         return VList(fresh(name + '.len', I), fresh(name + '.arr', z3.ArraySort(I, sort_of(k[1]))), k[1])
     if isinstance(k, tuple) and k[0] == 'tuple':
@@ -187,6 +190,8 @@ def fresh_like(name, v):
     if isinstance(v, VOpt): return VOpt(fresh(name, Opt))
     if isinstance(v, VOptR): return VOptR(fresh(name, OptR))
     if isinstance(v, VTok): return VTok(fresh(name, Tok))
+    if isinstance(v, VPy): return VPy(fresh(name, Py))
+    if isinstance(v, VEnumSym): return VEnumSym(v.cls, fresh(name, I))
     if isinstance(v, VList): return fresh_of_kind(name, ('list', v.kind))
     if isinstance(v, VTuple): return VTuple([fresh_like('%s.%d' % (name, i), x) for i, x in enumerate(v.items)])
     if isinstance(v, VNone): return v
@@ -202,6 +207,11 @@ def wrap(kind, t):
     if kind == 'ref': return VRef(t)
     if kind == 'tok': return VTok(t)
     if kind == 'optint': return VOpt(t)
+    if kind == 'py': return VPy(t)
+    if kind == 'crit':
+        L = list_sort('int'); e = Crit.ext(t)
+        return VTuple([VEnumSym('Optimisation_options', Crit.opt(t)),
+                       VUnion([(Crit.noext(t), VNone()), (z3.Not(Crit.noext(t)), VList(L.len(e), L.arr(e), 'int'))])])
     if isinstance(kind, tuple) and kind[0] == 'list':
         ls = list_sort(kind[1])
         return VList(ls.len(t), ls.arr(t), kind[1])
@@ -252,5 +262,17 @@ class VPy(V):
 
 
 Py = z3.Datatype('Py')
-Py.declare('pnone'); Py.declare('pint', ('i', I)); Py.declare('plist', ('l', list_sort('int')))
+# plist = a NON-EMPTY list of ints, kept as head + tail so that x[0] and x[1:] need no lambda terms
+Py.declare('pnone'); Py.declare('pint', ('i', I)); Py.declare('plist', ('head', I), ('tail', list_sort('int')))
 Py = Py.create()
+
+
+class VUnion(V):
+    """Guarded union of values of different Python types: [(cond, value)], conditions mutually exclusive."""
+    def __init__(s, alts): s.alts = alts
+    def __repr__(s): return 'VUnion(%r)' % ([v for _, v in s.alts],)
+
+
+# one requested criterion: (Optimisation_options member, extras) where extras is None or a list of ints
+Crit = z3.Datatype('Crit'); Crit.declare('mk', ('opt', I), ('noext', B), ('ext', list_sort('int'))); Crit = Crit.create()
+NOLIST = z3.Const('NOLIST', list_sort('int'))
